@@ -459,9 +459,11 @@ class PairedAdapterCutter(PairedEndModifier):
         self.with_adapters += 1
         result = []
         for i, match, read in zip([0, 1], [match1, match2], [read1, read2]):
-            trimmed_read = read
             if self.action == "lowercase":
-                trimmed_read.sequence = trimmed_read.sequence.upper()
+                # Not in place: the record is also the one kept as the original read
+                read = read[:]
+                read.sequence = read.sequence.upper()
+            trimmed_read = read
 
             trimmed_read = match.trimmed(trimmed_read)
             self.adapter_statistics[i][match.adapter].add_match(match)
